@@ -157,6 +157,9 @@ def run():
                     'definitions before and between blocks, nested containers; block kinds: paragraph, both headings, code blocks, quote, list, list item, '
                     'thematic break; distinct = distinct source texts; non-trivial = at least two blocks')
     docs = docgen.documents(ck, 'blocks')
+    from . import blockparse
+    n_gen = len(docs)
+    docs = docs + blockparse.documents(ck, 3 if ck.tier == 'quick' else 4)       # every short line sequence, read by spec/BlockParse.tla
     chunk = 400
     jobs = [docs[a:a + chunk] for a in range(0, len(docs), chunk)]
     ctx = mp.get_context('fork')
